@@ -15,3 +15,14 @@ def sp {α} [ToString α] (xs : List α) : String := "[" ++ " ".intercalate (xs.
 #eval let r := sample.Orders [1,2,3,4,5,6,7,0xf8]; IO.println s!"{r.1} {r.2.1} {r.2.2.1} {r.2.2.2.1} {r.2.2.2.2}"
 #eval IO.println (sample.Format "Boot" (-42) 0xbeef 0x1234567890 7)
 #eval IO.println (sample.Format "é\"x" 255 10 0 255)
+/- session 5: `Sink.Take` is an external function (what the Go method computes from what it is handed); `raw` values
+   behave alike at every call site, a `once` value delivers its content at the first call that is executed: site 0 of
+   `Store` for the names "a" "b" "c", the call inside `Take` otherwise -/
+def X : sample.Ext := ⟨fun s name m => s.Base + 1000 * name.length + 10 * ((m.Put 1 []).length + 1) + (m.Raw 1).length⟩
+def raw (p : List UInt8) : sample.Marsh := ⟨fun _ b => b ++ p, fun _ => p⟩
+def once (name : String) (p : List UInt8) : sample.Marsh :=
+  ⟨fun k b => if k == 0 || !(name == "a" || name == "b" || name == "c") then b ++ p else b, fun _ => [1]⟩
+def o : sample.Outer := ⟨⟨5⟩, ""⟩
+#eval for name in ["a", "c", "q", "zz", ""] do
+  IO.println s!"{sample.Outer.Store X o name (raw [1,2,3])} {sample.Outer.Store X o name (raw [1,2])} {sample.Outer.Store X o name (once name [9,9,9,9])} {sample.Outer.Store X o name (once name [9])}"
+#eval IO.println s!"{sample.Outer.StoreBlob X o "b" [1,2,3,4]} {sample.Outer.StoreBlob X o "x" []}"
